@@ -101,6 +101,9 @@ def check(rep, spec):
             tr = PointsToMST(K, exclude_soma=ex, sort=sort)
         else:
             tr = PointsToCuntzMST(bf=bf, furcations=K, exclude_soma=ex, sort=sort)
+        if spec.get("warmup"):
+            # a transform object is reusable: what it built for an earlier (tiny) cloud must not influence this call
+            tr(np.array(spec["warmup"], dtype=np.float64))
         t = tr(pts.copy(), soma=None if soma is None else list(soma))
     except Exception as e:
         rep(carrier, "operation-raises", spec, f"{type(e).__name__}: {e}", "a tree")
@@ -239,7 +242,10 @@ def run(ctx):
         cfgs = [CONFIGS[0]] + rng.sample(CONFIGS[1:], 3 if quick else 4)
         for cfg in cfgs:
             sort = rng.random() < 0.5
-            gap = check(rep, mk_spec(pts, soma, cfg, sort))
+            sp = mk_spec(pts, soma, cfg, sort)
+            if r % 2 == 0:
+                sp["warmup"] = [[0.0, 0.0, 0.0], [1.0, 0.5, 0.25]]
+            gap = check(rep, sp)
             if gap is not None and gap <= 1e-9:
                 ties += 1
             ctx.case("random-cloud", dict(n=n, first=list(pts[0]), cfg=list(cfg), soma=soma is not None, sort=sort))
@@ -247,7 +253,7 @@ def run(ctx):
         ctx.notes.append(f"{ties} cases met a near tie (< 1e-9) in the greedy simulation; their parent tables were not compared")
     ctx.rule(f"every subset of 2..{kmax} points of a generically perturbed 3x3x2 grid (rotating first point, soma given for a third, sort on/off alternating) with the plain-MST "
              f"configuration and one rotating configuration out of {len(CONFIGS)} (class, bf in 0..1, branching limit in -1,1,2,3, root exempt or not); {nrand} seeded random clouds of 2..{nmaxpts} "
-             "points x 4-5 configurations. Non-trivial = every case (>= 2 points).", exhaustive=False)
+             "points x 4-5 configurations, every second one on a transform object that was first applied to a 2-point cloud. Non-trivial = every case (>= 2 points).", exhaustive=False)
 
 
 def replay(spec):
